@@ -267,6 +267,28 @@ def rule_AU1(ctx, tier):
         else:
             rr.fail("uuid:inputs", "UUID::new does not use both the locator and the user id (uses params %s)" % sorted(used), where=u.span)
     rr.require_floor(39, "AU1 instances")
+    # the key everything is stored under separates users: UUID = H(locator bytes || an injective encoding of the user's key)
+    un = P.bodies.get("teos::extended_appointment::UUID::new")
+    if un is None:
+        rr.anchor_missing("teos::extended_appointment::UUID::new")
+    else:
+        pieces, inits = [], []
+        for bb, t in un.calls():
+            if (call_target(t) or "").split("::")[-1] in ("extend", "extend_from_slice", "append"):
+                a0 = og.strip(arg_origin(ctx, un, bb, 0))
+                if a0 not in inits:
+                    inits.append(a0)
+                pieces.append(og.strip(arg_origin(ctx, un, bb, 1)))
+        pieces = inits + pieces
+        loc_ok = any(("param", un.id, 1) in list(og.walk(pc)) and not any(isinstance(x, tuple) and x and x[0] == "call" and x[1].split("::")[-1] not in ("to_vec", "as_ref", "deref", "borrow", "clone", "as_slice", "serialize") for x in og.walk(pc)) for pc in pieces)
+        INJ = ("secp256k1::PublicKey::serialize", "secp256k1::PublicKey::serialize_uncompressed", "teos_common::UserId::to_vec")
+        usr = [pc for pc in pieces if ("param", un.id, 2) in list(og.walk(pc))]
+        usr_ok = bool(usr) and all(all((x[1].endswith(INJ) or x[1].split("::")[-1] in ("to_vec", "as_ref", "deref", "borrow", "clone", "as_slice", "into_iter", "iter")) for x in og.walk(pc) if isinstance(x, tuple) and x and x[0] == "call") for pc in usr)
+        hashed = has_call(ctx.og.local(un, 0), "Hash::hash")
+        if loc_ok and usr_ok and hashed and len(pieces) == 2:
+            rr.ok("UUID = hash(locator || full serialisation of the user's public key)", sample={"rule": "AU1", "UUID::new pieces": [og.show(pc)[:80] for pc in pieces]})
+        else:
+            rr.fail("uuid-not-injective", "`UUID::new` hashes %s: distinct (locator, user) pairs must give distinct storage keys — an encoding of the key that drops information (x-only, a prefix, ...) lets two users write to the same appointment" % [og.show(pc)[:70] for pc in pieces], where=un.span)
     return rr
 
 
